@@ -143,7 +143,11 @@ static void do_opml(FuzzedDataProvider & fdp) {
 		case 4: { // one engine: import + convert, then edit the imported text through the engine, convert again (other format), release
 			mmd_engine * e = mmd_engine_create_with_string(doc.c_str(), ext);
 			DString * r = mmd_engine_convert_to_data(e, fmt, NULL); if (r) d_string_free(r, true);
+			// (the imported text is grown past the size of the OPML source in two steps: whatever capacity the engine recorded for its
+			// replaced buffer, the text crosses it)
 			std::string val(1500, 'v'); mmd_engine_update_metavalue_for_key(e, "imported key", val.c_str());
+			std::string val2(doc.size() + 16, 'w'); mmd_engine_update_metavalue_for_key(e, "second key", val2.c_str());
+			mmd_engine_update_metavalue_for_key(e, "third key", val2.c_str());
 			char * k = mmd_engine_metadata_keys(e); free(k);
 			r = mmd_engine_convert_to_data(e, (fmt + 11) % 13, NULL); if (r) d_string_free(r, true);
 			mmd_engine_free(e, true); } break;
@@ -179,6 +183,8 @@ static void do_itmz(FuzzedDataProvider & fdp) {
 			mmd_engine * e = mmd_engine_create_with_dstring(d, EXT_PARSE_ITMZ | EXT_SMART | EXT_NOTES | EXT_CRITIC);
 			DString * r = mmd_engine_convert_to_data(e, fmt, NULL); if (r) d_string_free(r, true);
 			std::string val(1500, 'v'); mmd_engine_update_metavalue_for_key(e, "imported key", val.c_str());
+			std::string val2(raw.size() + 16, 'w'); mmd_engine_update_metavalue_for_key(e, "second key", val2.c_str());
+			mmd_engine_update_metavalue_for_key(e, "third key", val2.c_str());
 			r = mmd_engine_convert_to_data(e, (fmt + 11) % 13, NULL); if (r) d_string_free(r, true);
 			mmd_engine_free(e, true); }
 	}
